@@ -1,4 +1,4 @@
-import PasetoModel.JsonLemmas
+import PasetoModel.JsonParse
 import PasetoModel.ClaimsLemmas
 /-! # C14 — RegisteredClaims / Json wire form -/
 namespace PM.C14
@@ -166,6 +166,44 @@ theorem wire_strings_no_control (s : Bytes) : ∀ ch ∈ Json.escape s, 32 ≤ c
 theorem wire_timestamps_rfc3339_shape (ns : Int) :
     (∀ ch ∈ Json.fmtTs ns, Json.tsChar ch) ∧ ∃ body, Json.fmtTs ns = body ++ [90] :=
   ⟨Json.fmtTs_chars ns, Json.fmtTs_ends_Z ns⟩
+
+
+/-- the value bytes of a member (claims are only ever written as strings) -/
+def strOf : JVal → Bytes
+  | .str s _ => s
+  | _ => []
+
+theorem encode_members_are_strings (fmt : Int → Bytes) (c : Claims) :
+    ∀ m ∈ claimsEncode fmt c, ∃ s t, m.2 = JVal.str s t := by
+  intro m hm
+  simp only [claimsEncode, List.mem_filterMap] at hm
+  obtain ⟨f, _, hf⟩ := hm
+  cases hg : c.get f with
+  | none => simp [hg] at hf
+  | some v =>
+    cases v with
+    | s b => simp only [hg, Option.some.injEq] at hf; exact ⟨b, none, by rw [← hf]⟩
+    | t n => simp only [hg, Option.some.injEq] at hf; exact ⟨fmt n, some n, by rw [← hf]⟩
+
+/-- **the wire text is unambiguous**: reading the bytes `RegisteredClaims::encode` writes — with a reader for compact
+    objects of string members — gives back exactly the members that were written: every present claim once, in order,
+    strings byte for byte, timestamps as their RFC 3339 text; nothing for absent claims -/
+theorem wire_text_reads_back (c : Claims) :
+    Json.readObject (Json.claimsJson c) =
+      some ((claimsEncode Json.fmtTs c).map (fun m => (m.1, strOf m.2))) := by
+  have hmap : (claimsEncode Json.fmtTs c).map Json.memberText =
+      ((claimsEncode Json.fmtTs c).map (fun m => (m.1, strOf m.2))).map Json.strMemberText := by
+    rw [List.map_map]
+    apply List.map_congr_left
+    intro m hm
+    obtain ⟨s, t, hs⟩ := encode_members_are_strings Json.fmtTs c m hm
+    obtain ⟨k, v⟩ := m
+    simp only at hs
+    subst hs
+    rfl
+  unfold Json.claimsJson Json.objectText
+  rw [hmap]
+  exact Json.readObject_text _
 
 /-! non-vacuity: a concrete claim set and its text -/
 example : Json.claimsJson { iss := some [97, 34], exp := some 0 } =
